@@ -91,8 +91,22 @@ def akai_target(chk: Check, wrap_mdf: bool, work: str) -> Target:
 
 
 def roland_target(chk: Check, work: str) -> Target:
-    cases = [c for c in c02.generate(chk, 64, chk.seed + 22, label="Roland image for C11") if len(c["img"]["samples"]) >= 3]
-    cases = [c for c in cases if any(len({s["sample"] for s in e["samples"]}) >= 3 for e in c["expected"])] or cases
+    cases = [c for c in c02.generate(chk, 160, chk.seed + 22, label="Roland image for C11") if len(c["img"]["samples"]) >= 2]
+
+    def score(c):
+        # streams of one performance (>= 2), another performance that shares one of its samples (realised lazily during the
+        # schedule), and a shared sample with a leading-cluster offset
+        best = 0
+        for e in c["expected"]:
+            ids = {s["sample"] for s in e["samples"]}
+            if len(ids) < 2:
+                continue
+            others = [o for o in c["expected"] if (o["volume"], o["performance"]) != (e["volume"], e["performance"])
+                      and ids & {s["sample"] for s in o["samples"]}]
+            ctop = any(c["img"]["samples"][i]["ctop"] > 0 and len(c["img"]["samples"][i]["chain"]) > 1 for i in ids)
+            best = max(best, len(ids) + 3 * bool(others) + 3 * ctop)
+        return best
+    cases.sort(key=lambda c: -score(c))
     case = cases[0]
     image = rw.build_image(case, chk.seed)
     path = os.path.join(work, "roland.img")
@@ -100,7 +114,8 @@ def roland_target(chk: Check, work: str) -> Target:
         fh.write(image)
     img = repo.open_image(path)
     repo.ls(img, "")
-    e = max(case["expected"], key=lambda e: len(e["samples"]))
+    e = max(case["expected"], key=lambda e: (len({s["sample"] for s in e["samples"]}),
+                                             any(case["img"]["samples"][s["sample"]]["ctop"] > 0 for s in e["samples"])))
     want = {s["name"]: rw.read_extents(image, case, s["extents"], s["reversed"]) for s in e["samples"]}
     strs, exp, lead = [], [], []
     first = {s["name"]: 2 * s["pts"][0] for s in case["img"]["samples"]}
@@ -114,7 +129,9 @@ def roland_target(chk: Check, work: str) -> Target:
             strs.append(f.to_generalized().data_streams[0].stream)
             exp.append(want[f.name])
             lead.append(0 if rev[f.name] else first[f.name])
-    return Target("roland", img, strs, exp, ["", e["volume"], e["volume"] + "/" + e["performance"], "nope/x"], lead, 9216)
+    others = [f"{o['volume']}/{o['performance']}" for o in case["expected"] if (o["volume"], o["performance"]) != (e["volume"], e["performance"])]
+    leaves = [f"{o['volume']}/{o['performance']}/{s['name']}" for o in case["expected"] for s in o["samples"]][:3]
+    return Target("roland", img, strs, exp, others + leaves + ["", e["volume"], "nope/x"], lead, 9216)
 
 
 def cdda_target(chk: Check, work: str) -> Target:
@@ -191,7 +208,7 @@ def run(chk: Check):
                         label="behaviours on contiguous shared files (exhaustive depth 3)", timeout_s=3000)
     cases3 = resb2.cases if thorough else [c for c in resb2.cases if sum(1 for h in c["hist"] if h["op"]["op"] == "read") >= 2]
     replay_cases(chk, cases3, "shared-exh3")
-    ex2 = [["seek", 1, 0], ["seek", 2, 1], ["ls", 1, 1], ["ls", 2, 3]]
+    ex2 = [["seek", 1, 0], ["seek", 2, 1], ["ls", 1, 0], ["ls", 1, 1], ["ls", 2, 2], ["ls", 2, 3]]
     s2 = schedules(chk, 2, 3, {1, 4}, [], 0, "schedules: all interleavings of 2 streams x 3 blocks x 2 sizes (4096 bytes / up to the next sector boundary)")
     s3 = schedules(chk, 3, 2, {1}, [], 0, "schedules: all interleavings of 3 streams x 2 blocks")
     s2x = schedules(chk, 2, 2, {2}, ex2, 2 if thorough else 1, "schedules: 2 streams x 2 blocks with seeks and listings")
